@@ -44,3 +44,33 @@ def build(e, S, tmp=None, res=None, **kw):
     if kw:
         return e.build(S, **kw)
     return e.build(S)
+
+
+# ---- the same table in the different container forms petl accepts ---------------------------------------------------
+class IterOnly(object):
+    """A table container that offers nothing but __iter__ (re-iterable)."""
+
+    def __init__(self, rows):
+        self._rows = rows
+
+    def __iter__(self):
+        return iter(self._rows)
+
+
+FORMS = ["lists", "tuples", "list-of-tuples", "tuple-header", "iteronly", "iteronly-tuples"]
+
+
+def shape(table, form):
+    """`table` (list of lists) as a tuple of tuples, a list of tuples, lists under a tuple header, or an object with only
+    __iter__ (over lists / over tuples)."""
+    if form == "tuples":
+        return tuple(tuple(r) for r in table)
+    if form == "list-of-tuples":
+        return [tuple(r) for r in table]
+    if form == "tuple-header":
+        return [tuple(table[0])] + [list(r) for r in table[1:]] if table else table
+    if form == "iteronly":
+        return IterOnly([list(r) for r in table])
+    if form == "iteronly-tuples":
+        return IterOnly(tuple(tuple(r) for r in table))
+    return table
